@@ -1,3 +1,4 @@
+\* thorough: as MC_RevCache.cfg but all three calls concurrent, 12 configurations, loader failures in GetDocument and in getRevision
 CONSTANT Threads = {"t1", "t2"}
 CONSTANT Keys = {"k1", "k2"}
 CONSTANT CvKeys = {"k1"}
